@@ -250,54 +250,60 @@ def m0 : DMap :=
   { rows := 3, cols := 3, disp := fun r c => if r = 1 ∧ c = 1 then .num (1 / 2) else .num 1, flag := fun _ _ => 0 }
 
 /-- `vfit`, dissimilarity measure, subpix 2, cost volume over `[-1, 1]`, the cost row of C06's
-    `offgrid_past_end_counterexample` at every pixel, every pixel interval = the global one -/
-def D : RefineData :=
-  { P := { method := .vfit, isMax := false, subpix := 2, dmin := -1, dmax := 1 },
+    `offgrid_past_end_counterexample` at every pixel, every pixel interval = the global one; `v`: the text of the
+    refinement step (as it was / with the three repairs of C06 applied, which is the source today) -/
+def D (v : Refinement.Variant) : RefineData :=
+  { P := { variant := v, method := .vfit, isMax := false, subpix := 2, dmin := -1, dmax := 1 },
     costs := fun _ _ => [.num 9, .num 9, .num 5, .num 1, .num 1], pmin := fun _ _ => -1, pmax := fun _ _ => 1 }
+
+def repaired : Refinement.Variant := { fixFlat := true, fixOr := true, fixEnds := true }
 
 def W : Filter.Weights := { spatial := fun _ _ => 1, range := fun _ => 1 }
 
 /-- a bilateral filter, then refinement: a tail the machine accepts -/
-def steps : List Step := [.bilateral (Generated.Blocks.bilateral 3) W 3, .refine D]
+def steps (v : Refinement.Variant) : List Step := [.bilateral (Generated.Blocks.bilateral 3) W 3, .refine (D v)]
 
 theorem weightsOK : WeightsOK W 3 := ⟨fun _ _ => by simp [W], fun _ => by simp [W], by simp [W]⟩
 
+theorem run_values (v : Refinement.Variant) (hv : v = {} ∨ v = repaired) :
+    (runSteps (steps v) m0).map (fun m' => (m'.rows, m'.cols, m'.flag 1 1, m'.disp 1 1)) = some (3, 3, 0, .num (43 / 36))
+    ∧ refineReadyB (D v) m0 = true
+    ∧ refineReadyB (D v) (bilateralStep (Generated.Blocks.bilateral 3) W 3 m0) = false := by
+  rcases hv with rfl | rfl <;> decide +kernel
+
 /--
-  **The full-strength composition statement is false** (finding C06-F5 at pipeline level).  The tail
-  `filter; refinement` is accepted by the machine, the parameters of both steps are sound, the map the disparity step
-  left is on the sample grid, ready for refinement and inside `[-1, 1]`; the filter keeps it inside `[-1, 1]`
-  (centre: 17/18) but off the grid, so that the map entering refinement is not `refineReadyB`; refinement then moves
-  the centre pixel — still flagged valid — to 43/36 > 1 = `dmax`.
+  **The full-strength composition statement is false** (finding C06-F5 at pipeline level), of the refinement step as
+  it was and as it is with the three repairs of C06.  The tail `filter; refinement` is accepted by the machine, the
+  parameters of both steps are sound, the map the disparity step left is on the sample grid, ready for refinement and
+  inside `[-1, 1]`; the filter keeps it inside `[-1, 1]` (centre: 17/18) but off the grid, so that the map entering
+  refinement is not `refineReadyB`; refinement then moves the centre pixel — still flagged valid — to
+  43/36 > 1 = `dmax`.
 -/
-theorem filter_then_refine_counterexample :
-    acceptedFrom .dispMap (steps.map Step.kind) = true
-    ∧ (∀ s ∈ steps, s.paramsOK m0)
-    ∧ BoundedValid (-1) 1 m0 ∧ OneFlag m0 ∧ refineReadyB D m0 = true
-    ∧ refineReadyB D (bilateralStep (Generated.Blocks.bilateral 3) W 3 m0) = false
-    ∧ (runSteps steps m0).map (fun m' => (m'.flag 1 1, m'.disp 1 1)) = some (0, .num (43 / 36))
-    ∧ ∃ m', runSteps steps m0 = some m' ∧ ¬ BoundedValid (-1) 1 m' := by
-  have hrun : (runSteps steps m0).map (fun m' => (m'.flag 1 1, m'.disp 1 1)) = some (0, .num (43 / 36)) := by
-    decide +kernel
-  refine ⟨by decide, ?_, (boundedValidB_iff _ _ _).1 (by decide +kernel), (oneFlag_iff _).1 (by decide +kernel),
-    by decide +kernel, by decide +kernel, hrun, ?_⟩
+theorem filter_then_refine_counterexample (v : Refinement.Variant) (hv : v = {} ∨ v = repaired) :
+    acceptedFrom .dispMap ((steps v).map Step.kind) = true
+    ∧ (∀ s ∈ steps v, s.paramsOK m0)
+    ∧ BoundedValid (-1) 1 m0 ∧ OneFlag m0 ∧ refineReadyB (D v) m0 = true
+    ∧ refineReadyB (D v) (bilateralStep (Generated.Blocks.bilateral 3) W 3 m0) = false
+    ∧ ∃ m', runSteps (steps v) m0 = some m' ∧ Flags.isInvalid (m'.flag 1 1) = false ∧ m'.disp 1 1 = .num (43 / 36)
+        ∧ ¬ BoundedValid (-1) 1 m' := by
+  obtain ⟨hrun, hready, hnot⟩ := run_values v hv
+  refine ⟨by simp [steps, acceptedFrom, Step.kind, Machine.documented], ?_,
+    (boundedValidB_iff _ _ _).1 (by decide +kernel), (oneFlag_iff _).1 (by decide +kernel), hready, hnot, ?_⟩
   · intro s hs
     simp only [steps, List.mem_cons, List.not_mem_nil, or_false] at hs
     rcases hs with rfl | rfl
     · exact ⟨rfl, rfl, by decide, by decide, by decide, weightsOK⟩
     · trivial
-  · cases hm : runSteps steps m0 with
+  · cases hm : runSteps (steps v) m0 with
     | none => rw [hm] at hrun; cases hrun
     | some m' =>
       rw [hm] at hrun
       simp only [Option.map_some, Option.some.injEq, Prod.mk.injEq] at hrun
-      refine ⟨m', rfl, ?_⟩
+      obtain ⟨hrows, hcols, hflag, hdisp⟩ := hrun
+      refine ⟨m', rfl, by rw [hflag]; decide, hdisp, ?_⟩
       intro hb
-      have hdims : m'.rows = 3 ∧ m'.cols = 3 := by
-        have : (runSteps steps m0).map (fun m' => (m'.rows, m'.cols)) = some (3, 3) := by decide +kernel
-        rw [hm] at this
-        simpa using this
-      obtain ⟨q, hq, -, hle⟩ := hb 1 1 (by omega) (by omega) (by rw [hrun.1]; decide)
-      rw [hrun.2] at hq
+      obtain ⟨q, hq, -, hle⟩ := hb 1 1 (by omega) (by omega) (by rw [hflag]; decide)
+      rw [hdisp] at hq
       cases hq
       norm_num at hle
 
